@@ -86,7 +86,8 @@ REQUIRED_CLAUSES = ["args-unchanged", "module-tables-unchanged",
                     "result-is-not-an-argument-object", "public-api-present",
                     "interleaved-calls==sequential", "int-form==float-form",
                     "args-unchanged-during-call",
-                    "independent-of-decimal-context"]
+                    "independent-of-decimal-context",
+                    "explicit-defaults==omitted"]
 
 
 # ------------------------------------------------------------------ discovery
@@ -929,8 +930,50 @@ class Universe(object):
         self.reuse(target, args, inst)
         self.intform(target, args, inst)
         self.ambient(target, args2, inst2, rs)
+        self.defaults(target, args2, inst2, rs)
         self.quiesce()
         return rs
+
+    def defaults(self, target, args2, inst2, rs):
+        """A default spelled out is the default: the call with every omitted
+        optional parameter passed by keyword with its documented default
+        value returns what the plain call returned."""
+        if self.rng.random() > 0.3 or target[3] == "__init__":
+            return
+        mon = self.mon
+        f = getattr(inst2, target[3]) if inst2 is not None \
+            else resolve(target)[0]
+        try:
+            ps = list(inspect.signature(f).parameters.values())
+        except (TypeError, ValueError):
+            return
+        a = copy.deepcopy(args2)
+        kw = KW(a.pop()) if a and isinstance(a[-1], KW) else KW()
+        extra = {}
+        for k, prm in enumerate(ps):
+            if prm.kind is not prm.POSITIONAL_OR_KEYWORD \
+                    and prm.kind is not prm.KEYWORD_ONLY:
+                continue
+            if prm.default is prm.empty or k < len(a) or prm.name in kw:
+                continue
+            extra[prm.name] = copy.deepcopy(prm.default)
+        if not extra:
+            return
+        kw.update(extra)
+        i = copy.deepcopy(inst2)
+        mon.evals += 1
+        self.calls += 1
+        try:
+            got = snap(ap(getattr(i, target[3]) if i is not None
+                          else resolve(target)[0], a + [kw]))
+        except Exception as ex:
+            got = ("raised", repr(ex))
+        mon.cls("defaults-spelled-out", (target[0], tuple(sorted(extra))))
+        mon.check("explicit-defaults==omitted", got == rs,
+                  lambda: {"target": target[0], "args": a,
+                           "spelled_out": repr(extra)[:200],
+                           "omitted": repr(rs)[:300],
+                           "explicit": repr(got)[:300]})
 
     def ambient(self, target, args2, inst2, rs):
         """The interpreter-wide numeric context is not an argument: with the
